@@ -881,6 +881,26 @@ def verify_function(key: str, repo: Repo, reg, timeout_s=20, facet=None) -> Func
     I.facet = facet
     I.facet_all = sink.facet_all
     lib.USED.clear()
+    # decorators other than the structural ones replace the function by something else (a cache, a retry loop, ...): what
+    # is verified here is the BODY, so the function as callers see it is undecided
+    for d_ in getattr(fn, "decorator_list", []):
+        dn = ast.unparse(d_)
+        if dn in ("property", "staticmethod", "classmethod", "abstractmethod", "abc.abstractmethod",
+                  "contextlib.contextmanager", "contextmanager", "overload", "typing.overload") or dn.endswith(".setter"):
+            continue
+        res.status = "undecided"
+        res.reason = f"unsupported: decorator @{dn[:60]} (the decorated function is not the body that is verified)"
+        res.time = time.time() - t0
+        return res
+    # a statement contract whose statement is gone (edited, moved into a helper ...) must not vanish silently: the function
+    # is UNDECIDED, like a loop whose invariant no longer matches its iterable
+    texts = None
+    stale = []
+    for sc in reg["stmts"].get(key, []):
+        if texts is None:
+            texts = {ast.unparse(n).replace(" ", "").replace("\n", "") for n in ast.walk(fn) if isinstance(n, ast.stmt)}
+        if sc.match.replace(" ", "").replace("\n", "") not in texts and (getattr(sc, "facet", None) == facet):
+            stale.append(sc)
     try:
         st = State()
         decos = getattr(fn, "_decos", [])
@@ -978,6 +998,12 @@ def verify_function(key: str, repo: Repo, reg, timeout_s=20, facet=None) -> Func
         elif ob.verdict == "unknown" and g["verdict"] == "proved":
             g["verdict"] = "unknown"
             g["detail"] = ob.detail
+    for sc in stale:
+        # (reported as an undecided obligation of its own - the rest of the function is verified as usual, so a change to
+        #  that very statement can still be refuted through the obligations that depend on it)
+        res.groups[f"{key}/A/{sc.label}#stale"] = {
+            "verdict": "unknown", "backend": set(), "time": 0.0, "kind": "A", "lines": [], "instances": 1, "witness": None,
+            "detail": f"stale statement contract: the function has no statement `{sc.match[:100]}` any more"}
     for g in res.groups.values():
         g["backend"] = sorted(b for b in g["backend"] if b)
         if g.get("dead", 0) == g["instances"]:
